@@ -15,5 +15,6 @@ var mirrored = map[string][]string{
 	"tars/protocol/tarsprotocol.go": {"TarsRequest", "TarsProtocol.RequestPack", "TarsProtocol.ResponseUnpack"},
 }
 
-// extra adds constants of models added after the skeleton.
-func extra(add func(k string, v int64, ok bool)) {}
+// extras: per-model plug-ins (one file extract/<model>.go each) register, from an init function,
+// a function that adds further constants, and may add entries to `mirrored`.
+var extras []func(add func(k string, v int64, ok bool))
